@@ -557,6 +557,157 @@ Theorem C09_shared_object_topic_type : forall pr oid o h,
   res_to_option (decl_topic (t_default o) (obj_hint pr oid)) = spec_decl (t_default o) h.
 Proof. exact shared_object_topic_type. Qed.
 
+(* ---- the clock and the timestamps of NetworkTables values ------------- *)
+
+(* Vocabulary (Model section 13).  Every NT value carries a timestamp; a client
+   may supply it ([stampsel]: SNow = the NT clock, SSame = the timestamp of the
+   value the topic holds now, SOlder = one microsecond before that, SAt t);
+   ntcore drops an update that is older than the value the topic holds.  The
+   NT clock ([g_now]) is stepped by [GTick d] -- it stands still in between
+   (the paused simulation clock of robot tests: everything between two steps
+   carries ONE timestamp; d = 1 per operation: a running clock).  [gworld] =
+   the world of the sections above + clock + per-topic timestamps
+   ([g_stamps], [stamp_get]) + the classes as they are now; [gop] = an
+   operation of the sections above ([GX]; its writes happen at the clock's
+   time), [GTick], [GNtWriteAt key ty v sel], [GNtStamp key], [GClassAssign],
+   [GSetupOf]; [grun] yields per operation its event and whether ntcore
+   accepted its writes ([all_accepted]).  [gerase cl h] is the same history
+   with clock, timestamps and class changes forgotten (an [xop] history of the
+   sections above, every setup with the tunables its class has at that
+   moment), [gevents] the events of the operations that survive. *)
+
+(* whatever the clock does and however the clients stamp their updates: as
+   long as ntcore drops no update as stale, the history behaves -- NT
+   contents, bindings, every event -- as if there were no timestamps at all.
+   tunable.__get__ returns what the entry holds; WHEN that value was stamped
+   plays no role. *)
+Theorem C09_time_irrelevant : forall h g,
+  all_accepted (snd (grun g h)) = true ->
+  g_x (fst (grun g h)) = fst (xrun (g_x g) (gerase (g_classes g) h)) /\
+  gevents (snd (grun g h)) = snd (xrun (g_x g) (gerase (g_classes g) h)).
+Proof. exact grun_erase. Qed.
+
+(* nothing is dropped when no topic carries a timestamp from the future, the
+   clock never runs backwards (steps of size 0 included: a PAUSED clock) and
+   clients stamp with "now" or "the same as the value being replaced" *)
+Theorem C09_paused_clock_drops_nothing : forall h g,
+  (forall k, (stamp_get (g_stamps g) k <= g_now g)%Z) ->
+  forallb gop_timely h = true ->
+  all_accepted (snd (grun g h)) = true.
+Proof. exact timely_all_accepted. Qed.
+
+(* C09's read clause with the clock in the picture: after ANY such history
+   without re-binding -- attribute writes and reads, client writes stamped
+   "now" or with the SAME timestamp as the value they replace, clock steps of
+   any size >= 0, truthiness changes -- reading i.a (owner of any truthiness)
+   gives the most recent write to its key, also when that write carries the
+   very timestamp of the value the instance read before *)
+Theorem C09_read_latest_any_time : forall g h i t b a k ty d,
+  (forall k', (stamp_get (g_stamps g) k' <= g_now g)%Z) ->
+  forallb gop_timely h = true ->
+  no_setup (erase (gerase (g_classes g) h)) = true ->
+  inst_get (w_inst (x_w (g_x g))) i = Some b -> bind_get b a = Some (k, ty, d) ->
+  tunable_get (x_w (g_x (fst (grun g h)))) (Some (i, t)) a =
+  GResult (match last_write (x_w (g_x g)) (erase (gerase (g_classes g) h)) k with
+           | Some v => EvVal v
+           | None => py_read (x_w (g_x g)) i a
+           end).
+Proof. exact read_latest_any_time. Qed.
+
+(* ... and the event such a read emits in the middle of the history *)
+Theorem C09_read_latest_event_any_time : forall g h1 h2 i b a k ty d,
+  (forall k', (stamp_get (g_stamps g) k' <= g_now g)%Z) ->
+  forallb gop_timely (h1 ++ GX (XOp (PyRead i a)) :: h2) = true ->
+  no_setup (erase (gerase (g_classes g) h1)) = true ->
+  inst_get (w_inst (x_w (g_x g))) i = Some b -> bind_get b a = Some (k, ty, d) ->
+  nth (length (gerase (g_classes g) h1))
+      (gevents (snd (grun g (h1 ++ GX (XOp (PyRead i a)) :: h2)))) XDone =
+  XEv (match last_write (x_w (g_x g)) (erase (gerase (g_classes g) h1)) k with
+       | Some v => EvVal v
+       | None => py_read (x_w (g_x g)) i a
+       end).
+Proof. exact read_latest_event_any_time. Qed.
+
+(* the boundary (ntcore, not /repo): an update stamped older than the value
+   the topic holds is dropped -- no topic, timestamp or binding changes *)
+Theorem C09_stale_update_dropped : forall g k ty v s,
+  accepts (stamp_get (g_stamps g) k) (sel_time (g_now g) (stamp_get (g_stamps g) k) s) = false ->
+  gstep g (GNtWriteAt k ty v s) = (g, GEv (XEv EvWrote), false).
+Proof. exact stale_write_dropped. Qed.
+
+(* ---- classes whose tunables change between two setups ------------------ *)
+
+(* Vocabulary: [GClassAssign c m] is `cls.name = obj` executed after the class
+   statement (obj a new tunable [MTun d] or anything else [MPlain name]) on
+   class number c; magicbot's StateMachine does it in EVERY instance
+   construction (cls.state_names = tunable(..), cls.state_descriptions =
+   tunable(..)).  [mro_assign mro m] is the class afterwards.  [GSetupOf i c p n]
+   is setup_tunables(instance i of class c, n, p): the class AS IT IS NOW. *)
+
+(* attribute lookup on the class after `cls.name = obj` *)
+Theorem C09_class_assign_lookup : forall mro m n,
+  class_getattr (mro_assign mro m) n =
+  if String.eqb (member_name m) n then Some m else class_getattr mro n.
+Proof. exact class_getattr_assign. Qed.
+
+(* it touches nothing else: no topic, no timestamp, the clock, no binding of
+   an instance that is set up already, no other class *)
+Theorem C09_class_assign_changes_nothing_else : forall g c m,
+  let g' := fst (fst (gstep g (GClassAssign c m))) in
+  g_x g' = g_x g /\ g_stamps g' = g_stamps g /\ g_now g' = g_now g /\
+  snd (gstep g (GClassAssign c m)) = true /\
+  forall c', c' <> c -> nth_error (g_classes g') c' = nth_error (g_classes g) c'.
+Proof. exact class_assign_changes_nothing_else. Qed.
+
+(* EVERY setup binds the tunables the class has at that moment (however many
+   instances of the class were set up before, whatever the class looked like
+   then): per public name the tunable attribute lookup finds NOW, at the
+   documented key, with its topic type; its default / writeDefault flag decide
+   what the topic holds *)
+Theorem C09_setup_binds_current_class : forall g i c mro p n d,
+  (forall k, (stamp_get (g_stamps g) k <= g_now g)%Z) ->
+  nth_error (g_classes g) c = Some mro ->
+  (forall b x, In b mro -> In x b -> no_slash (member_name x) = true) ->
+  class_getattr mro (d_attr d) = Some (MTun d) -> public d = true ->
+  snd (fst (gstep g (GSetupOf i c p n))) = GEv (XEv (EvSetup true)) ->
+  snd (gstep g (GSetupOf i c p n)) = true /\
+  exists b ty,
+    inst_get (w_inst (x_w (g_x (fst (fst (gstep g (GSetupOf i c p n))))))) i = Some b /\
+    decl_topic (d_default d) (d_hint d) = Ok ty /\
+    bind_get b (d_attr d) =
+      Some (key_of p n (d_subtable d) (d_attr d), ty, entry_value ty (d_default d)) /\
+    nt_get (w_nt (x_w (g_x (fst (fst (gstep g (GSetupOf i c p n)))))))
+           (key_of p n (d_subtable d) (d_attr d)) =
+    if d_wd d then Some (ty, entry_value ty (d_default d))
+    else match nt_get (w_nt (x_w (g_x g))) (key_of p n (d_subtable d) (d_attr d)) with
+         | Some tv => Some tv
+         | None => Some (ty, entry_value ty (d_default d))
+         end.
+Proof. exact setup_binds_current_class. Qed.
+
+(* in particular: after `cls.A = tunable(..)` (= d), an instance that is set
+   up next has A bound to THAT tunable *)
+Theorem C09_setup_after_class_assign : forall g i c mro p n d,
+  (forall k, (stamp_get (g_stamps g) k <= g_now g)%Z) ->
+  nth_error (g_classes g) c = Some mro ->
+  (forall b x, In b (mro_assign mro (MTun d)) -> In x b -> no_slash (member_name x) = true) ->
+  public d = true ->
+  let g1 := fst (fst (gstep g (GClassAssign c (MTun d)))) in
+  snd (fst (gstep g1 (GSetupOf i c p n))) = GEv (XEv (EvSetup true)) ->
+  exists b ty,
+    inst_get (w_inst (x_w (g_x (fst (fst (gstep g1 (GSetupOf i c p n))))))) i = Some b /\
+    decl_topic (d_default d) (d_hint d) = Ok ty /\
+    bind_get b (d_attr d) =
+      Some (key_of p n (d_subtable d) (d_attr d), ty, entry_value ty (d_default d)) /\
+    nt_get (w_nt (x_w (g_x (fst (fst (gstep g1 (GSetupOf i c p n)))))))
+           (key_of p n (d_subtable d) (d_attr d)) =
+    if d_wd d then Some (ty, entry_value ty (d_default d))
+    else match nt_get (w_nt (x_w (g_x g))) (key_of p n (d_subtable d) (d_attr d)) with
+         | Some tv => Some tv
+         | None => Some (ty, entry_value ty (d_default d))
+         end.
+Proof. exact setup_after_class_assign. Qed.
+
 (* ---- non-vacuity ----------------------------------------------------- *)
 
 Definition ex_cls : list decl :=
@@ -810,6 +961,130 @@ Example C09_shared_annotation_last_class_wins :
     [EvSetup true; EvNt (Some (NDouble, VScalar (SFloat 0)))].
 Proof. vm_compute. intuition. Qed.
 
+(* the clock: a component is set up and reads `speed` under a PAUSED clock
+   (t = 1000), a client publishes 7.25 -- same timestamp --, the read gives 7.25;
+   the clock is stepped, the component assigns 4.0, a client re-publishes with
+   the SAME timestamp as that value (SSame), then with "now": each time the
+   read gives the latest; every timestamp is as ntcore assigns it (a duplicate
+   keeps the old one, setDefault leaves 0); a stale update (SOlder, and SAt 900)
+   is dropped and the read keeps the value; the hypotheses of the theorems
+   hold for the timely part, and fail for the stale update *)
+Definition ex_speed : decl := mkdecl "speed" (VScalar (SFloat 64)) None None true.
+Definition ex_keep : decl := mkdecl "keep" (VScalar (SInt 3)) None None false.
+Definition ex_gh : list gop :=
+  [ GSetupOf 0 0 (Some "components") "shooter";
+    GX (XOp (PyRead 0 "speed")); GNtStamp "/components/shooter/speed"; GNtStamp "/components/shooter/keep";
+    GX (XOp (NtWrite "/components/shooter/speed" NDouble (VScalar (SFloat 464))));
+    GX (XOp (PyRead 0 "speed")); GNtStamp "/components/shooter/speed";
+    GTick 20000;
+    GX (XOp (PyWrite 0 "speed" (VScalar (SFloat 256)))); GX (XOp (PyRead 0 "speed"));
+    GNtWriteAt "/components/shooter/speed" NDouble (VScalar (SFloat 320)) SSame;
+    GX (XOp (PyRead 0 "speed")); GNtStamp "/components/shooter/speed";
+    GTick 0;
+    GNtWriteAt "/components/shooter/speed" NDouble (VScalar (SFloat 320)) SNow;   (* a duplicate *)
+    GNtStamp "/components/shooter/speed";
+    GTick 5;
+    GNtWriteAt "/components/shooter/speed" NDouble (VScalar (SFloat 384)) SNow;
+    GX (XOp (PyRead 0 "speed")); GNtStamp "/components/shooter/speed" ].
+Definition ex_stale : list gop :=
+  [ GNtWriteAt "/components/shooter/speed" NDouble (VScalar (SFloat 0)) SOlder;
+    GX (XOp (PyRead 0 "speed"));
+    GNtWriteAt "/components/shooter/speed" NDouble (VScalar (SFloat 0)) (SAt 900);
+    GX (XOp (PyRead 0 "speed")); GNtStamp "/components/shooter/speed" ].
+Example C09_nv_time :
+  let g := g0 1000 [[[MTun ex_speed; MTun ex_keep]]] in
+  snd (grun g ex_gh) =
+  [ (GEv (XEv (EvSetup true)), true);
+    (GEv (XEv (EvVal (VScalar (SFloat 64)))), true); (GStamp 1000, true); (GStamp 0, true);
+    (GEv (XEv EvWrote), true);
+    (GEv (XEv (EvVal (VScalar (SFloat 464)))), true); (GStamp 1000, true);
+    (GDone, true);
+    (GEv (XEv EvWrote), true); (GEv (XEv (EvVal (VScalar (SFloat 256)))), true);
+    (GEv (XEv EvWrote), true);
+    (GEv (XEv (EvVal (VScalar (SFloat 320)))), true); (GStamp 21000, true);
+    (GDone, true);
+    (GEv (XEv EvWrote), true); (GStamp 21000, true);
+    (GDone, true);
+    (GEv (XEv EvWrote), true);
+    (GEv (XEv (EvVal (VScalar (SFloat 384)))), true); (GStamp 21005, true) ] /\
+  forallb gop_timely ex_gh = true /\ all_accepted (snd (grun g ex_gh)) = true /\
+  (forall k, (stamp_get (g_stamps g) k <= g_now g)%Z) /\
+  gerase (g_classes g) ex_gh =
+  [ XOp (setup_class 0 [[MTun ex_speed; MTun ex_keep]] (Some "components") "shooter");
+    XOp (PyRead 0 "speed");
+    XOp (NtWrite "/components/shooter/speed" NDouble (VScalar (SFloat 464))); XOp (PyRead 0 "speed");
+    XOp (PyWrite 0 "speed" (VScalar (SFloat 256))); XOp (PyRead 0 "speed");
+    XOp (NtWrite "/components/shooter/speed" NDouble (VScalar (SFloat 320))); XOp (PyRead 0 "speed");
+    XOp (NtWrite "/components/shooter/speed" NDouble (VScalar (SFloat 320)));
+    XOp (NtWrite "/components/shooter/speed" NDouble (VScalar (SFloat 384))); XOp (PyRead 0 "speed") ] /\
+  no_setup (erase (gerase (g_classes g) (tl ex_gh))) = true /\
+  (* the stale updates: dropped, flagged, the read keeps 6.0 and the timestamp stays *)
+  snd (grun (fst (grun g ex_gh)) ex_stale) =
+  [ (GEv (XEv EvWrote), false); (GEv (XEv (EvVal (VScalar (SFloat 384)))), true);
+    (GEv (XEv EvWrote), false); (GEv (XEv (EvVal (VScalar (SFloat 384)))), true); (GStamp 21005, true) ] /\
+  forallb gop_timely ex_stale = false /\
+  (* the clock jumps BACK (HAL initialised after NT was used): a write "now" is dropped too *)
+  snd (grun (fst (grun g ex_gh))
+            [GTick (-30000); GX (XOp (PyWrite 0 "speed" (VScalar (SFloat 0)))); GX (XOp (PyRead 0 "speed"))]) =
+  [ (GDone, true); (GEv (XEv EvWrote), false); (GEv (XEv (EvVal (VScalar (SFloat 384)))), true) ].
+Proof.
+  vm_compute. repeat split; try reflexivity. intros k. discriminate.
+Qed.
+
+(* classes that change: a StateMachine-like class (own tunable `power`, the
+   base's `current_state`); constructing an instance assigns state_names anew.
+   left is constructed and set up, right is constructed (the class gets a NEW
+   state_names object, here with another default to tell them apart, and a
+   tunable `extra` is added, `power` is replaced by one with default 0.75) and
+   set up: right has all of them at ITS keys with the NEW defaults, left's
+   topics are untouched *)
+Definition ex_names (l : list string) : decl :=
+  mkdecl "state_names" (VList (map SStr l)) None (Some "state") true.
+Definition ex_sm : list classbody :=
+  [ [MTun (mkdecl "power" (VScalar (SFloat 32)) None None true)];
+    [MTun (mkdecl "current_state" (VScalar (SStr "")) None (Some "state") true)] ].
+Definition ex_ch : list gop :=
+  [ GClassAssign 0 (MTun (ex_names ["idle"; "eject"]));
+    GSetupOf 0 0 (Some "components") "left";
+    GX (XOp (PyRead 0 "state_names"));
+    GClassAssign 0 (MTun (ex_names ["idle"; "eject"; "jam"]));
+    GClassAssign 0 (MTun (mkdecl "extra" (VScalar (SInt 5)) None None true));
+    GClassAssign 0 (MTun (mkdecl "power" (VScalar (SFloat 48)) None None true));
+    GSetupOf 1 0 (Some "components") "right";
+    GX (XOp (PyRead 1 "state_names")); GX (XOp (PyRead 1 "extra")); GX (XOp (PyRead 1 "power"));
+    GX (XOp (PyRead 1 "current_state"));
+    GX (XOp (NtRead "/components/right/state/state_names"));
+    GX (XOp (NtRead "/components/left/state/state_names"));
+    GX (XOp (NtRead "/components/left/power")); GX (XOp (NtRead "/components/left/extra"));
+    GSetupOf 2 7 None "nobody"; GClassAssign 7 (MPlain "x") ].
+Example C09_nv_class_change :
+  let g := g0 5 [ex_sm] in
+  snd (grun g ex_ch) =
+  [ (GDone, true); (GEv (XEv (EvSetup true)), true);
+    (GEv (XEv (EvVal (VList [SStr "idle"; SStr "eject"]))), true);
+    (GDone, true); (GDone, true); (GDone, true); (GEv (XEv (EvSetup true)), true);
+    (GEv (XEv (EvVal (VList [SStr "idle"; SStr "eject"; SStr "jam"]))), true);
+    (GEv (XEv (EvVal (VScalar (SInt 5)))), true); (GEv (XEv (EvVal (VScalar (SFloat 48)))), true);
+    (GEv (XEv (EvVal (VScalar (SStr "")))), true);
+    (GEv (XEv (EvNt (Some (NStringArr, VList [SStr "idle"; SStr "eject"; SStr "jam"])))), true);
+    (GEv (XEv (EvNt (Some (NStringArr, VList [SStr "idle"; SStr "eject"])))), true);
+    (GEv (XEv (EvNt (Some (NDouble, VScalar (SFloat 32))))), true); (GEv (XEv (EvNt None)), true);
+    (GNoClass, true); (GNoClass, true) ] /\
+  map member_name (nth 0 (nth 0 (g_classes (fst (grun g ex_ch))) []) []) =
+    ["power"; "extra"; "state_names"] /\
+  class_getattr (mro_assign ex_sm (MTun (ex_names ["idle"]))) "state_names" = Some (MTun (ex_names ["idle"])) /\
+  class_getattr (mro_assign ex_sm (MPlain "current_state")) "current_state" = Some (MPlain "current_state") /\
+  class_members (mro_assign ex_sm (MPlain "current_state")) =
+    [mkdecl "power" (VScalar (SFloat 32)) None None true] /\
+  (forall b x, In b (mro_assign ex_sm (MTun (ex_names ["idle"; "eject"]))) -> In x b ->
+               no_slash (member_name x) = true) /\
+  forallb gop_timely ex_ch = true /\
+  length (gerase (g_classes g) ex_ch) = 11%nat.
+Proof.
+  vm_compute. repeat split; try reflexivity.
+  intros b x [<-|[<-|[]]] Hx; simpl in Hx; intuition (subst; reflexivity).
+Qed.
+
 Print Assumptions C09_key.
 Print Assumptions C09_setup_binds_key.
 Print Assumptions C09_attr_write_reaches_topic.
@@ -862,3 +1137,12 @@ Print Assumptions C09_shared_object_key.
 Print Assumptions C09_shared_object_hint.
 Print Assumptions C09_shared_object_hint_subscript.
 Print Assumptions C09_shared_object_topic_type.
+Print Assumptions C09_time_irrelevant.
+Print Assumptions C09_paused_clock_drops_nothing.
+Print Assumptions C09_read_latest_any_time.
+Print Assumptions C09_read_latest_event_any_time.
+Print Assumptions C09_stale_update_dropped.
+Print Assumptions C09_class_assign_lookup.
+Print Assumptions C09_class_assign_changes_nothing_else.
+Print Assumptions C09_setup_binds_current_class.
+Print Assumptions C09_setup_after_class_assign.
